@@ -3,7 +3,6 @@
 use crate::chooser::Chooser;
 use crate::runner::{Family, PropSpec, RunCtx, RunOut};
 use crate::scen::{Basic, BasicOpts};
-use crate::tap::new_tap;
 use crate::world::World;
 
 pub fn end_checks(w: &mut World, sc: &Basic, require_completion: bool) {
@@ -41,9 +40,7 @@ pub fn feasible(opts: &mut BasicOpts, sc_knobs: (&crate::cfgs::TKnobs, &crate::c
 }
 
 fn run_basic(ch: Chooser, ctx: &RunCtx, mut opts: BasicOpts) -> RunOut {
-    let tap = new_tap();
-    let mut w = World::new(ch, tap);
-    w.log_on = ctx.log;
+    let mut w = World::from_ctx(ch, ctx);
     opts.op_kinds = vec![0, 1, 2, 3, 4, 5, 6, 7];
     let mut sc = Basic::build(&mut w, opts);
     w.run(&mut sc);
